@@ -630,6 +630,7 @@ def run(chk: Check):
         "are raised from code reachable from the entry points, asserts cannot see None, lookups are total, parse() never "
         "returns None, and the action-level type hazards found by the abstract interpreter (attribute/iteration/operand on "
         "a value of the wrong kind) are absent.")
+    chk.explanation += ' (T4) no regular expression the scanner matches with has exponential ambiguity (two different paths on one word around a state of the pattern automaton), decided for every pattern found at a match/compile call site.'
     chk.trusted = ["xpverif.pyflow CFG and syntactic call graph", "xpverif.absint"]
     chk.assumptions = ["regular-expression facts used by the progress argument (every PseudoToken branch but \\Z is at least one "
                        "character wide) are decided under C08/C09",
